@@ -4,6 +4,7 @@ import Drv.Walk
 import Drv.Sync
 import Drv.Proto
 import Drv.Meta
+import Drv.Wire
 open Lean Drv
 
 /-- which repairs (`fix:` commits) the model follows; the driver always runs the repaired model,
@@ -19,6 +20,9 @@ def handle (j : Json) : Except String Json := do
   | "sync" => hSync j
   | "fault" => hFault j
   | "metaonly" => hMetaOnly j
+  | "wire_dec" => hWireDec j
+  | "wire_enc" => hWireEnc j
+  | "frames" => hFrames j
   | "metasync" => hMetaSync j
   | "sendproto" => hSendProto j
   | "recvproto" => hRecvProto j
